@@ -18,7 +18,9 @@ only = set(sys.argv[3:])
 repo = "/repo"
 tmp = tempfile.mkdtemp(prefix="rfprobe_")
 dst = os.path.join(tmp, "repo")
-subprocess.check_call(["rsync", "-a", "--exclude", ".git", "--exclude", "build", repo + "/", dst + "/"])
+# copy of the committed tree (seeded changes may be applied to the working tree while this runs)
+os.makedirs(dst, exist_ok=True)
+subprocess.check_call("git -C %s archive HEAD | tar -x -C %s" % (repo, dst), shell=True)
 count = {k: 0 for k in kinds}
 
 
